@@ -112,8 +112,9 @@ def run(ctx, crate):
         return obs
     ms = S.call_sites(main)
     oc = [s for s in ms if s.path == "opts::Opts::new"]
-    later = [s for s in ms if s.path.endswith("::analyze_dir") or s.path.endswith("::generate_report")]
-    ok = len(oc) == 1 and len(later) == 4 and all(main.dominates(oc[0].bb, s.bb) and oc[0].bb != s.bb for s in later)
+    later = [s for s in ms if s.path.endswith("::analyze_dir") or s.path.startswith("report::generation::")]
+    ok = len(oc) == 1 and len([s for s in later if s.path.endswith("::analyze_dir")]) == 3 and len(later) >= 4 and \
+        all(main.dominates(oc[0].bb, s.bb) and oc[0].bb != s.bb for s in later)
     obs.append(Ob("R14.unknown", "main", "options are resolved before any analysis or report", ok, expected="Opts::new dominates analyze_dir x3 and generate_report",
                   found=[s.path for s in later]))
     # ---------------- R14.applied: what was selected is what is analysed: main hands each category's list and the directory of the resolved options,
